@@ -62,7 +62,7 @@ MANIFEST = {
                  "points of the implementation run are atomic operations and pthread calls only (plain volatile reads are not separately interleaved in the run, they are in the "
                  "theorems); usize wrap-around outside.  Nothing OPEN: `join_eventually` (every weakly fair run reaches a state where every thread has finished and every call was executed and freed exactly once), `fair_runs_terminate`, `progresses_wf`, `no_stuck`, `terminal_state_is_complete` are proved on the FULL model of the repaired code; the scheduler verdict, the exhaustive model exploration of small configurations and the random model walks are additional tests.  The model mirrors the REPAIRED code "
                  "(fixes/future/0001-0005, fixes/sync/0001); on the unrepaired tree the check reports the defects with concrete failing schedules.  Round 3: failing Thread::start: XReach is exact up to the join loop of ~ThreadPool (tail replayed by the driver, OPEN as a theorem); "
-                 "the liveness theorems assume that thread creation succeeds (shown false otherwise); the _threadCount leak of the failing branch is repaired by fixes/future/0006 (error path outside C10's quantifier; runs without a refused creation are byte-identical); the driver follows whichever failure branch the library shows in the trace; safety with refused creations is proved for the original branch only, the repaired branch is replayed; Call.hpp: generic capture model for all arities, pool model = Args2 instance.  Round 7: Framework::~Framework (static destruction of the lazily created pool) is run by the harness under the scheduler (model frame mDel); LockFreeQueue::size is translated and proved not to underflow but is not used by the pool."),
+                 "the liveness theorems assume that thread creation succeeds (shown false otherwise); the _threadCount leak of the failing branch is repaired by fixes/future/0006 (in /repo since 5521235; runs without a refused creation are byte-identical); on the unrepaired code the check reports the leak as `deadlock:destructor-waits-for-a-slot-with-no-worker-left` (corpus schedule, run first); the driver follows whichever failure branch the library shows in the trace; safety with refused creations is proved for the original branch only, the repaired branch is replayed; Call.hpp: generic capture model for all arities, pool model = Args2 instance.  Round 7: Framework::~Framework (static destruction of the lazily created pool) is run by the harness under the scheduler (model frame mDel); LockFreeQueue::size is translated and proved not to underflow but is not used by the pool."),
         "design_ref": "DESIGN.md 3/C10",
     }
 }
@@ -351,11 +351,17 @@ def reference(scn, trace, limit_hit=None):
         f = next((x for x in trace if x.startswith("F ")), "")
         blocked = {int(x.split(":")[0][1:]) for x in d.split()[1:] if x[0] == "t" and x.split(":")[0][1:].isdigit()}
         if failed_creates and not (blocked & workers):
-            # the environment refused a worker thread and NO worker thread is left alive: nobody can serve the queue (a client waits in
-            # join()/run(), or ~ThreadPool waits for a slot for a terminate job counted for a thread that never existed).  Not a violation of
-            # C10 (its liveness clause assumes that worker threads can be created; theorems `join_eventually_fails_...`,
-            # `destructor_hangs_...` in PropsSpawnFail.lean); counted in the evidence.  A deadlock with a live worker asleep stays a violation.
-            limit_hit.append("destructor" if blocked == {0} else "client")
+            # the environment refused a worker thread and NO worker thread is left alive: nobody can serve the queue.  A client waiting in
+            # join()/run() then is not a violation of C10 (its liveness clause assumes that worker threads can be created; theorem
+            # `join_eventually_fails_when_no_worker_can_be_created`, PropsSpawnFail.lean); counted in the evidence.  A deadlock with a live worker
+            # asleep stays a violation.
+            if blocked == {0}:
+                # every client has finished and only ~ThreadPool is left, waiting for a queue slot for a terminate job counted for a thread that
+                # never existed: the _threadCount leak of the failure branch of ThreadPool::run, repaired by fixes/future/0006 (in /repo since
+                # 5521235).  The repaired code is the reference: this is a violation (with the repair the same schedules end DONE).
+                bad.append(("deadlock", d + " ; " + f))
+            else:
+                limit_hit.append("client")
         else:
             bad.append(("deadlock", d + " ; " + f))
     elif verdict == "DONE":
